@@ -222,7 +222,13 @@ func c12(args []string) {
 				c.Set("harness_race_example", clip(r.Text, 1500))
 				continue
 			}
-			c.Violation(r.Sig, "data race between "+r.Frames[0]+" and "+r.Frames[1]+" ("+j.tag+")\n"+clip(r.Text, 1800),
+			sig := r.Sig
+			if literalFeederFanIn(j.s) && len(r.Frames) == 2 && paramPortMethod(r.Frames[0]) && paramPortMethod(r.Frames[1]) {
+				// the known finding (feeders started at wiring time) is tied to its workload - a literal feeder
+				// beside another upstream on one parameter port - and to accesses inside the parameter ports
+				sig = "race:parameter-port-methods|literal-feeder-fan-in"
+			}
+			c.Violation(sig, "data race between "+r.Frames[0]+" and "+r.Frames[1]+" ("+j.tag+")\n"+clip(r.Text, 1800),
 				map[string]interface{}{"spec": j.s, "cfg": j.cfg, "workload": j.tag, "report": r.Text})
 		}
 		if res.Hang != "" && !strings.HasPrefix(res.Hang, "deadlock") {
@@ -247,6 +253,10 @@ func c12(args []string) {
 		}
 	})
 	c.Finish()
+}
+
+func paramPortMethod(frame string) bool {
+	return strings.Contains(frame, "(*InParamPort).") || strings.Contains(frame, "(*OutParamPort).")
 }
 
 var _ = sort.Strings
